@@ -111,6 +111,7 @@ type Exec struct {
 	curCall  *ssa.CallCommon
 	entryEnv *Env
 	lockIDs  map[string]int
+	curArgs  []Val // arguments of the call being executed
 	curReach Term // reach condition of the instruction being executed: path facts are assumed under it
 	curBlock *ssa.BasicBlock
 	curIdx   int
